@@ -30,6 +30,7 @@ import itertools
 import os
 import shutil
 import tempfile
+import warnings
 import zipfile
 from fractions import Fraction
 
@@ -47,7 +48,7 @@ RULE = ('random schemas (1-4 classes, 0-3 associations with 0-3 key attributes o
         'decimal expansion: values that differ only beyond the sixth decimal, the seventh significant digit or single precision are '
         'different keys on every route); per population: ALL permutations of the statements when there are <= 7 '
         '(quick: <= 6, and <= 7 on a sample), 50 random permutations otherwise; random partitions into 1-4 input '
-        'calls / files / directory chain / wide directory (directory and file names with a leading dot, blanks and the glob characters [ ] * ?; sometimes two trees with equally named files) / members of one zip archive or of two archives with equally named members / one file through the bridgepoint loader, each part '
+        'calls / files / directory chain / wide directory (directory and file names with a leading dot, blanks and the glob characters [ ] * ?; sometimes two trees with equally named files) / members of one zip archive (in half of them consecutive members carry the SAME name) or of two archives with equally named members / one file through the bridgepoint loader, each part '
         'ending with a newline, right after its last `;`, with a `-- comment` that no newline ends, or with a bare `--`; '
         'API and clone construction; rejected inputs (duplicate class, a class declaring an attribute name twice, unknown class or key in an association or '
         'identifier, key lists of different length, named INSERT with unequal lengths). Non-trivial = some association has both a linked and an '
@@ -460,15 +461,22 @@ def _load(stmts, v, mine, cache=None):
             for r_ in roots:
                 l.filename_input(r_)
         elif route == 'bp-zip':
-            # one archive — or TWO archives fed to the one loader whose members carry the same names
+            # one archive — or TWO archives fed to the one loader whose members carry the same names; in half of the
+            # variants consecutive members of ONE archive carry the same name as well (legal: what updating an archive in
+            # append mode leaves behind) — every ENTRY of an archive is a member, a name does not identify one
             pick = sum(v['order'][:2]) + len(v['parts'])
+            same_names = pick % 4 in (1, 2)
             half = len(parts) // 2 if (len(parts) >= 2 and pick % 2 == 0) else len(parts)
             groups = [g for g in (list(enumerate(parts))[:half], list(enumerate(parts))[half:]) if g]
             for gi, group in enumerate(groups):
                 fn = os.path.join(d, 'model%d.zip' % gi)
-                with zipfile.ZipFile(fn, 'w') as z:
+                with zipfile.ZipFile(fn, 'w') as z, warnings.catch_warnings():
+                    warnings.simplefilter('ignore')         # zipfile warns about a repeated member name
                     z.writestr('readme.txt', decoy)
                     for k, (n, p) in enumerate(group):
+                        if same_names:
+                            z.writestr('models/p%d.xtuml' % (k // 2), _part_text(p, n, v))
+                            continue
                         z.writestr(('models/pkg%d/' % k if k % 2 else 'models/') + 'p%d.xtuml' % k, _part_text(p, n, v))
                 l.filename_input(fn)
         else:
